@@ -14,6 +14,7 @@ use crate::{
     compression,
     crypto::{decrypt_block, decrypt_dword, hash_string, hash_type},
     header::{self, MpqHeader, UserDataHeader},
+    path::plain_file_name,
     special_files,
     tables::{BetTable, BlockTable, HashTable, HetTable, HiBlockTable},
 };
@@ -1618,7 +1619,7 @@ impl Archive {
 
         // Calculate encryption key if needed
         let key = if file_info.is_encrypted() {
-            let base_key = hash_string(name, hash_type::FILE_KEY);
+            let base_key = hash_string(plain_file_name(name), hash_type::FILE_KEY);
             if file_info.has_fix_key() {
                 // Apply FIX_KEY modification
                 let file_pos = (file_info.file_pos - self.archive_offset) as u32;
@@ -1793,7 +1794,7 @@ impl Archive {
 
         // Calculate encryption key if needed
         let key = if file_info.is_encrypted() {
-            let base_key = hash_string(name, hash_type::FILE_KEY);
+            let base_key = hash_string(plain_file_name(name), hash_type::FILE_KEY);
             if file_info.has_fix_key() {
                 // Apply FIX_KEY modification
                 let file_pos = (file_info.file_pos - self.archive_offset) as u32;
@@ -2075,7 +2076,7 @@ impl Archive {
         // we'll use a default key based on the table index
         let key = if file_info.is_encrypted() {
             // Use a generic key calculation for anonymous files
-            hash_string(&file_info.filename, hash_type::FILE_KEY)
+            hash_string(plain_file_name(&file_info.filename), hash_type::FILE_KEY)
         } else {
             0
         };
